@@ -270,21 +270,33 @@ Section Norm.
       - unfold ok. split; [reflexivity|]. cbn [evalw eval_op2]. symmetry. apply shr_big. assumption.
       - match goal with H : negb (op2_eqb SAR SAR) = true |- _ => discriminate H end. }
     destruct (op2_eqb o SHL) eqn:EO; [|dflt].
-    destruct (shl_mask_view a b) as [y|] eqn:V; [|dflt].
+    destruct (shl_and_view a b) as [[[s c] y]|] eqn:V; [|dflt].
     assert (o = SHL) by (destruct o; try discriminate EO; reflexivity). subst o.
-    unfold shl_mask_view in V.
-    destruct a as [s| | | | | | | | | | | | | | | ]; try discriminate V.
+    unfold shl_and_view in V.
+    destruct a as [s0| | | | | | | | | | | | | | | ]; try discriminate V.
     destruct b as [| | | | | |o0 b1 b2| | | | | | | | | ]; try discriminate V.
     destruct o0; try discriminate V.
-    destruct b1 as [c| | | | | | | | | | | | | | | ]; try discriminate V.
-    destruct ((0 <=? s) && (s <? 256) && (Z.land c (Z.ones (256 - s)) =? Z.ones (256 - s))) eqn:G; [|discriminate V].
-    inversion V; subst b2. clear V.
-    apply andb_true_iff in G. destruct G as [G G3]. apply andb_true_iff in G. destruct G as [G1 G2].
-    apply Z.leb_le in G1. apply Z.ltb_lt in G2. apply Z.eqb_eq in G3.
+    destruct b1 as [c0| | | | | | | | | | | | | | | ]; try discriminate V.
+    destruct ((0 <=? s0) && (s0 <? 256)) eqn:G; [|discriminate V].
+    inversion V; subst s0 c0 b2. clear V.
+    apply andb_true_iff in G. destruct G as [G1 G2]. apply Z.leb_le in G1. apply Z.ltb_lt in G2.
     cbn [wsort] in Hb. repeat (apply andb_true_iff in Hb; destruct Hb as [Hb ?]).
-    unfold ok. cbn [wsort evalw eval_op2]. split.
-    - cbn [wsort] in Ha. rewrite Ha. match goal with Hy : wsort y = true |- _ => rewrite Hy end. reflexivity.
-    - symmetry. apply shl_mask_drop; [lia|exact G3].
+    cbn [wsort] in Ha.
+    assert (Hy : wsort y = true) by assumption.
+    cbv zeta. destruct (Z.land c (Z.ones (256 - s)) =? Z.ones (256 - s)) eqn:Mk.
+    - apply Z.eqb_eq in Mk. unfold ok. cbn [wsort evalw eval_op2]. split.
+      + rewrite Ha, Hy. reflexivity.
+      + symmetry. apply shl_mask_drop; [lia|exact Mk].
+    - unfold ok. cbn [wsort evalw eval_op2]. split.
+      + rewrite Ha, Hy. rewrite andb_true_r. cbn [andb].
+        assert (R : 0 <= Z.land c (Z.ones (256 - s)) < W).
+        { rewrite Z.land_ones by lia.
+          assert (P : 0 < 2 ^ (256 - s)) by (apply Z.pow_pos_nonneg; lia).
+          pose proof (Z.mod_pos_bound c (2 ^ (256 - s)) P) as B.
+          assert (2 ^ (256 - s) <= 2 ^ 256) by (apply Z.pow_le_mono_r; lia).
+          unfold W. lia. }
+        rewrite (inw_constw _ R). reflexivity.
+      + symmetry. apply shl_mask_canon. lia.
   Qed.
 
   Ltac sorts := cbn [wsort] in *;
